@@ -214,12 +214,11 @@ LPack(p) ==
     /\ H([p |-> p, a |-> "lpack"])
     /\ UNCHANGED <<refs, k, olds, st, exe, pre, post, ini, push, emitted>>
 
-\* atomic=True: get_peeled() of every ref against the value read at the start
-\* (a ref that does not exist any more passes)
+\* atomic=True: every ref is compared with the value read at the start (the code as it is asks
+\* get_peeled(), which knows nothing about loose refs: LocalAtomicMode = "none")
 LFail(p, i) ==
     LET c == C(p)[i] IN
-      \/ LocalAtomicMode = "precheck" /\ refs[c.r] # 0 /\ refs[c.r] # olds[p][i]
-      \/ LocalAtomicMode = "txn" /\ (refs[c.r] # olds[p][i] \/ ObjRejL(store, c))
+      LocalAtomicMode # "none" /\ (refs[c.r] # olds[p][i] \/ ObjRejL(store, c))
 
 LCheck(p) ==
     /\ pc[p] = "lcheck"
